@@ -6,12 +6,14 @@ import (
 
 	"github.com/sboehler/knut/lib/common/compare"
 	"github.com/sboehler/knut/lib/common/date"
+	"github.com/sboehler/knut/lib/common/dict"
 	"github.com/sboehler/knut/lib/common/multimap"
 	"github.com/sboehler/knut/lib/common/set"
 	"github.com/sboehler/knut/lib/common/table"
 	"github.com/sboehler/knut/lib/journal"
 	"github.com/sboehler/knut/lib/journal/performance"
 	"github.com/sboehler/knut/lib/model/account"
+	"github.com/sboehler/knut/lib/model/commodity"
 )
 
 type Query struct {
@@ -28,7 +30,9 @@ func (q Query) Execute(j *journal.Builder, r *Report) *journal.Processor {
 				return nil
 			}
 			total := performance.Sum(d.Performance.V1)
-			for com, v := range d.Performance.V1 {
+			// floating point sums below must not depend on map iteration order
+			for _, com := range dict.SortedKeys(d.Performance.V1, commodity.Compare) {
+				v := d.Performance.V1[com]
 				ss := q.Universe.Locate(com)
 				level, suffix, ok := q.Mapping.Level(strings.Join(ss, ":"))
 				if ok && level < len(ss)-suffix {
@@ -79,7 +83,8 @@ func (r *Report) PropagateWeights() {
 		if n.Value.Weights == nil {
 			n.Value.Weights = make(map[time.Time]float64)
 		}
-		for _, ch := range n.Children {
+		for _, segment := range dict.SortedKeys(n.Children, compare.Ordered[string]) {
+			ch := n.Children[segment]
 			for date, w := range ch.Value.Weights {
 				n.Value.Weights[date] += w
 			}
@@ -90,8 +95,8 @@ func (r *Report) PropagateWeights() {
 func (r *Report) SortWeighted() {
 	r.weights.PostOrder(func(n *Node) {
 		var total float64
-		for _, w := range n.Value.Weights {
-			total += w
+		for _, date := range dict.SortedKeys(n.Value.Weights, compare.Time) {
+			total += n.Value.Weights[date]
 		}
 		n.Value.Weight = -total
 	})
